@@ -239,6 +239,46 @@ def _history_chunk(histories):
     return out
 
 
+def _swap(e):
+    """Exchange the fields a1 and a2 in an expression / item / assignment list."""
+    if isinstance(e, list):
+        if len(e) == 3 and e[0] == 'fld' and e[1] == 'a' and e[2] in (1, 2):
+            return ['fld', 'a', 3 - e[2]]
+        return [_swap(x) for x in e]
+    return e
+
+
+def swap_query(q):
+    q2 = dict(q)
+    for k in ('items', 'where', 'order', 'group'):
+        q2[k] = _swap(q[k])
+    q2['assign'] = [[3 - a[0] if a[0] in (1, 2) else a[0], _swap(a[1])] for a in q['assign']]
+    return q2
+
+
+def _layout_chunk(pairs):
+    """The SAME query text over two tables whose headers put the names in different positions (x1,x2 then x2,x1): each run must give
+    what TLC computed for it (the second is TLC's case for the field-exchanged query)."""
+    mods = impl.load()
+    out = []
+    for pid, c1, c2, style in pairs:
+        sigs = []
+        ren = {c2['hdrA'][0]: c2['hdrA'][1], c2['hdrA'][1]: c2['hdrA'][0]}
+        exp2 = dict(c2['expect'], hdr=[ren.get(h, h) for h in c2['expect']['hdr']])
+        c2v = dict(c2, hdrA=[c2['hdrA'][1], c2['hdrA'][0]], expect=exp2)
+        t1 = engine.render_query(c1, engine.Named(style), 'py')
+        t2 = engine.render_query(c2v, engine.Named(style), 'py')
+        if t1 != t2:
+            out.append((pid, [{'machinery': 'texts differ', 't1': t1, 't2': t2}]))
+            continue
+        for pos, (case, label) in enumerate(((c1, 'first layout'), (c2v, 'second layout'), (c1, 'first layout again'))):
+            obs = engine.run_case_py(mods, case, t1)
+            for sig in engine.judge(case, obs, t1):
+                sigs.append(dict(sig, what='same text, other column layout (%s): %s' % (label, sig['what']), position=pos))
+        out.append((pid, sigs))
+    return out
+
+
 FRESH = r'''
 import sys, json
 sys.path.insert(0, %r)
@@ -255,7 +295,7 @@ def check(run):
     quick = run.tier == 'quick'
     run.rule = ('(A) all pairs of 9 query kinds (plain, top, sorted, distinct count, aggregate, unnest, update, runtime-failing, parse-failing) over tables of <= %d records: every interleaving explored by TLC; '
                 '(B) every schedule of chosen pairs (exhaustive: one terminal state per schedule of API events) and schedules sampled by tlc -simulate over all pairs, replayed with two real threads under a cooperative scheduler; '
-                'histories of <= 6 queries in one interpreter and single queries in fresh interpreters; non-trivial = schedule of >= 6 events in which both threads take steps' % (2 if quick else 3))
+                'histories of <= 6 queries in one interpreter, the same query text (columns by name) over two column layouts in one interpreter, and single queries in fresh interpreters; non-trivial = schedule of >= 6 events in which both threads take steps' % (2 if quick else 3))
     run.assumptions = ['interleaving points are the iterator / writer calls (what the statement names)', 'Python port only: rbql-js keeps one module-global context (documented limitation)']
     d = tlcrun.new_scratch('c16')
     # (A) exhaustive interleavings without the history variable in the fingerprint
@@ -304,6 +344,25 @@ def check(run):
         run.count(['history', [ec.case_key(c) for c in h]], nontrivial=any(c['expect']['err'] for c in h[:-1]))
         for sig in sigs:
             run.violation(sig, {'kind': 'history', 'cases': h})
+    # the same query text over tables with different column layouts, one after another in one interpreter
+    rr = tlcrun.run_tlc('MC_Engine', ec.engine_cfg(os.path.join(d, 'named.cfg'), 'Q_C16named', 'R_2x2', 'R_none', 2, 0, (True,), (0,)), timeout=3600)
+    run.add_tlc('MC_Engine:same-text-other-layout', rr)
+    bykey = {json.dumps([c['q'], c['A']], sort_keys=True): c for c in rr.cases}
+    lpairs = []
+    for c1 in rr.cases:
+        if len(c1['A']) < 1:
+            continue
+        c2 = bykey.get(json.dumps([swap_query(c1['q']), c1['A']], sort_keys=True))
+        if c2 is None:
+            core.machinery_failure('Q_C16named is not closed under exchanging the fields')
+        lpairs.append((len(lpairs), c1, c2, 2 + len(lpairs) % 3))
+    for (pid, c1, c2, style), (_, sigs) in zip(lpairs, par.pmap(_layout_chunk, lpairs, chunk=40)):
+        run.traces += 3
+        run.count(['layout', ec.case_key(c1)], nontrivial=True, n=3)
+        for sig in sigs:
+            if 'machinery' in sig:
+                core.machinery_failure('layout pair: ' + json.dumps(sig))
+            run.violation(sig, {'kind': 'layout', 'c1': c1, 'c2': c2, 'style': style})
     # fresh interpreters
     sample = [rnd.choice(hc) for _ in range(12 if quick else 60)]
     for case in sample:
@@ -325,6 +384,11 @@ def replay(path):
     if c['kind'] == 'schedule':
         for tid, sigs, drift, nev in _replay_schedules([(1, c['c1'], c['c2'], c['sched'])]):
             run.traces += 1
+            for sig in sigs:
+                run.violation(sig, c)
+    elif c['kind'] == 'layout':
+        for pid, sigs in _layout_chunk([(1, c['c1'], c['c2'], c['style'])]):
+            run.traces += 3
             for sig in sigs:
                 run.violation(sig, c)
     elif c['kind'] == 'history':
